@@ -430,7 +430,10 @@ C04_Replay ==
   IF ~(Is("log_replay") /\ ~Has("err") /\ Ev.node \in DOMAIN dur) THEN {} ELSE
     LET lg == Log(Ev.node) IN
     IF lg.base # Ev.base \/ lg.ents # Ents(Ev.entries)
-      THEN {V("C14", "ReplayedLogDiffers", <<Ev.node, lg.base, Len(lg.ents), Ev.base, Len(Ev.entries)>>)} ELSE {}
+      \* what the node really has on disk is not what its acknowledged storage calls denote: the
+      \* premise of C04's majority clause and a failure of C14 (and of C12, which finds the cause)
+      THEN {V("C14", "ReplayedLogDiffers", <<Ev.node, lg.base, Len(lg.ents), Ev.base, Len(Ev.entries)>>),
+            V("C04", "DiskDiffersFromAcknowledgedLog", <<Ev.node, lg.base, Len(lg.ents), Ev.base, Len(Ev.entries)>>)} ELSE {}
 
 (* C05 *)
 C05_Reads ==
